@@ -79,6 +79,7 @@ type stream struct {
 	anyDirtyOffset               bool
 	balancing                    bool
 	closeWithCancel              bool
+	closing                      bool
 	open                         bool
 }
 
@@ -210,7 +211,9 @@ func (s *stream) listenEnd(endContext models.DcpStreamEndContext) {
 		logger.Log.Debug("end stream vbID: %v", endContext.Event.VbID)
 	}
 
-	if !s.closeWithCancel && endContext.Err != nil &&
+	// an end that arrives once the stream is being closed (shutdown or rebalance) is final for
+	// this session whatever its cause: the vBucket is requested again, if at all, by the next Open
+	if !s.closeWithCancel && !s.closing && endContext.Err != nil &&
 		(errors.Is(endContext.Err, gocbcore.ErrSocketClosed) ||
 			errors.Is(endContext.Err, gocbcore.ErrDCPBackfillFailed) ||
 			errors.Is(endContext.Err, gocbcore.ErrDCPStreamStateChanged) ||
@@ -228,6 +231,7 @@ func (s *stream) listenEnd(endContext models.DcpStreamEndContext) {
 func (s *stream) Open() {
 	s.streamFinishedWithCloseCh = false
 	s.streamFinishedWithEndEventCh = false
+	s.closing = false
 
 	// drop finish signals left over from the previous session
 	select {
@@ -445,6 +449,7 @@ func (s *stream) Close(closeWithCancel bool) {
 
 func (s *stream) close(closeWithCancel bool) {
 	s.closeWithCancel = closeWithCancel
+	s.closing = true
 
 	if s.observers == nil {
 		// already closed by a rebalance that has not reopened yet: cancel the pending reopen
